@@ -38,6 +38,8 @@ ByteLens == (0..MaxBytes) \cup BigBytes
 Grid(alg) == \* complete BEARER x DIRECTION grid
   {Case(FnOp, alg, Rnd, Rnd, b, d, IF alg = 2 THEN 8 * (n \div 8) ELSE n, 2) : b \in 0..31, d \in 0..1, n \in GridBits}
   \cup {Case(WrOp, alg, Rnd, Rnd, b, d, 8 * n, 2) : b \in 0..31, d \in 0..1, n \in {1, 9}}
+  \* the same grid under one fixed key and COUNT: replayed back to back, so that a result depending on the previous call shows
+  \cup {Case(op, alg, KeyPat(k), CntPat(k), b, d, 40, 2) : b \in 0..31, d \in 0..1, k \in 0..1, op \in {FnOp, WrOp}}
 Dense(alg) == \* every length, with extreme and random keys; bearer / direction vary with the length
   {Case(FnOp, alg, KeyPat(p), CntPat((p + n) % 3), (n * 7 + 3 + r) % 32, (n + r) % 2, n, (n + p + r) % 3) : n \in BitLens(alg), p \in 0..2, r \in 1..Reps}
   \cup {Case(WrOp, alg, KeyPat(p), CntPat((p + n + 1) % 3), (n * 5 + 1 + r) % 32, (n + r) % 2, 8 * n, (n + p + r) % 3) : n \in ByteLens, p \in 0..2, r \in 1..Reps}
